@@ -11,6 +11,7 @@ import (
 
 	"google.golang.org/protobuf/encoding/protodelim"
 	"google.golang.org/protobuf/encoding/protowire"
+	testpb "google.golang.org/protobuf/internal/testprotos/test"
 	"google.golang.org/protobuf/proto"
 	"google.golang.org/protobuf/types/known/wrapperspb"
 	"google.golang.org/protobuf/verifmc/core"
@@ -95,7 +96,7 @@ func kinds() []readerKind {
 }
 
 func run(c *core.Ctx) {
-	c.Rule = "environment exploration: streams of <=3 messages with encoded sizes drawn from {0, 2, 127, 128, 200} (+16384 in the thorough tier) written by MarshalTo, truncated at EVERY byte offset, read back by repeated UnmarshalFrom through 12 reader behaviours (bufio of size 16/17/64/4096, direct readers delivering 1-3 bytes per call, bufio over such readers, data+EOF in one call) under MaxSize in {-1, 0, size-1, size, size+1}; a reference framing model gives the expected result of every call: messages Equal and in order, io.EOF exactly at a clean boundary, io.ErrUnexpectedEOF inside a size prefix or body, *SizeTooLargeError iff size > MaxSize, and bytes consumed from the reader == frame length after every successful call. A state is (stream, truncation point, reader behaviour, MaxSize, number of calls made)"
+	c.Rule = "environment exploration: streams of <=3 messages with encoded sizes drawn from {0, 2, 127, 128, 200} (+16384 in the thorough tier) written by MarshalTo, truncated at EVERY byte offset, read back by repeated UnmarshalFrom through 12 reader behaviours (bufio of size 16/17/64/4096, direct readers delivering 1-3 bytes per call, bufio over such readers, data+EOF in one call) under MaxSize in {-1, 0, size-1, size, size+1}, into a fresh destination per call or into one non-empty destination reused by every call; a reference framing model gives the expected result of every call: messages Equal and in order, io.EOF exactly at a clean boundary, io.ErrUnexpectedEOF inside a size prefix or body, *SizeTooLargeError iff size > MaxSize, and bytes consumed from the reader == frame length after every successful call. A state is (stream, truncation point, reader behaviour, MaxSize, destination policy, number of calls made). A second family frames messages with required fields (complete, partial, empty-and-partial) and demands that UnmarshalFrom with and without AllowPartial, fresh or reused destination, gives exactly the verdict and content of proto.Unmarshal on the frame body"
 	c.Exhaustive = true
 	mkMsg := func(size int) proto.Message {
 		switch {
@@ -179,86 +180,99 @@ func run(c *core.Ctx) {
 			data := full[:t]
 			for _, k := range ks {
 				for mx := range maxes {
-					states.Add(1)
-					r, consumed := k.mk(data)
-					pos := 0
-					sig := func(call int) string {
-						return fmt.Sprintf("sizes=%v cut=%d/%d reader=%s MaxSize=%d call#%d", seq, t, len(full), k.name, mx, call)
-					}
-					for call := 0; call <= len(seq); call++ {
-						trans.Add(1)
-						var m wrapperspb.BytesValue
-						var dst proto.Message = &m
-						var im wrapperspb.Int32Value
-						if call < len(seq) && seq[call] == 2 {
-							dst = &im
+					for _, reuse := range []bool{false, true} {
+						states.Add(1)
+						// reuse: one destination per type serves every call and is not
+						// empty before the first one (UnmarshalFrom must replace, not merge)
+						reM := &wrapperspb.BytesValue{Value: []byte("stale")}
+						reI := &wrapperspb.Int32Value{Value: 99}
+						r, consumed := k.mk(data)
+						pos := 0
+						sig := func(call int) string {
+							return fmt.Sprintf("sizes=%v cut=%d/%d reader=%s MaxSize=%d reusedDestination=%v call#%d", seq, t, len(full), k.name, mx, reuse, call)
 						}
-						var err error
-						if c.Guard(func() string { return "UnmarshalFrom panics " + sig(call) }, func() {
-							err = protodelim.UnmarshalOptions{MaxSize: mx}.UnmarshalFrom(r, dst)
-						}) {
-							break
-						}
-						// reference
-						var want string
-						switch {
-						case pos == t:
-							want = "EOF"
-						case call >= len(seq):
-							want = "EOF"
-						default:
-							s := seq[call]
-							lim := mx
-							if lim == 0 {
-								lim = 4 << 20
+						for call := 0; call <= len(seq); call++ {
+							trans.Add(1)
+							var m wrapperspb.BytesValue
+							var dst proto.Message = &m
+							var im wrapperspb.Int32Value
+							if call < len(seq) && seq[call] == 2 {
+								dst = &im
 							}
-							prefix := protowire.SizeVarint(uint64(s))
+							if reuse {
+								dst = reM
+								if call < len(seq) && seq[call] == 2 {
+									dst = reI
+								}
+							}
+							var err error
+							if c.Guard(func() string { return "UnmarshalFrom panics " + sig(call) }, func() {
+								err = protodelim.UnmarshalOptions{MaxSize: mx}.UnmarshalFrom(r, dst)
+							}) {
+								break
+							}
+							// reference
+							var want string
 							switch {
-							case t < pos+prefix:
-								want = "UnexpectedEOF"
-							case lim >= 0 && int64(s) > lim:
-								want = "TooLarge"
-							case t < pos+prefix+s:
-								want = "UnexpectedEOF"
+							case pos == t:
+								want = "EOF"
+							case call >= len(seq):
+								want = "EOF"
 							default:
-								want = "ok"
+								s := seq[call]
+								lim := mx
+								if lim == 0 {
+									lim = 4 << 20
+								}
+								prefix := protowire.SizeVarint(uint64(s))
+								switch {
+								case t < pos+prefix:
+									want = "UnexpectedEOF"
+								case lim >= 0 && int64(s) > lim:
+									want = "TooLarge"
+								case t < pos+prefix+s:
+									want = "UnexpectedEOF"
+								default:
+									want = "ok"
+								}
 							}
-						}
-						var got string
-						var tl *protodelim.SizeTooLargeError
-						switch {
-						case err == nil:
-							got = "ok"
-						case err == io.EOF:
-							got = "EOF"
-						case errors.Is(err, io.ErrUnexpectedEOF):
-							got = "UnexpectedEOF"
-						case errors.As(err, &tl):
-							got = "TooLarge"
-						default:
-							got = "other:" + err.Error()
-						}
-						if got != want {
-							c.Violation(fmt.Sprintf("UnmarshalFrom result=%s want=%s %s", got, want, sig(call)), fmt.Sprint(err))
-							break
-						}
-						if want != "ok" {
-							break
-						}
-						if !proto.Equal(dst, mkMsg(seq[call])) {
-							c.Violation("UnmarshalFrom returns a different message "+sig(call), nil)
-							break
-						}
-						pos = frameEnd[call]
-						if cns := consumed(); cns != pos {
-							c.Violation(fmt.Sprintf("bytes consumed=%d want frame end=%d %s", cns, pos, sig(call)), nil)
-							break
+							var got string
+							var tl *protodelim.SizeTooLargeError
+							switch {
+							case err == nil:
+								got = "ok"
+							case err == io.EOF:
+								got = "EOF"
+							case errors.Is(err, io.ErrUnexpectedEOF):
+								got = "UnexpectedEOF"
+							case errors.As(err, &tl):
+								got = "TooLarge"
+							default:
+								got = "other:" + err.Error()
+							}
+							if got != want {
+								c.Violation(fmt.Sprintf("UnmarshalFrom result=%s want=%s %s", got, want, sig(call)), fmt.Sprint(err))
+								break
+							}
+							if want != "ok" {
+								break
+							}
+							if !proto.Equal(dst, mkMsg(seq[call])) {
+								c.Violation("UnmarshalFrom returns a different message "+sig(call), nil)
+								break
+							}
+							pos = frameEnd[call]
+							if cns := consumed(); cns != pos {
+								c.Violation(fmt.Sprintf("bytes consumed=%d want frame end=%d %s", cns, pos, sig(call)), nil)
+								break
+							}
 						}
 					}
 				}
 			}
 		}
 	})
+	requiredFrames(c, ks)
 	c.States(states.Load())
 	c.Transitions(trans.Load())
 	c.Traces(trans.Load())
@@ -268,4 +282,65 @@ func run(c *core.Ctx) {
 	c.Bounds["reader_behaviours"] = len(ks)
 	c.Sample(map[string]any{"sizes": []int{127, 128}, "cut": 129, "reader": "bufio(16)", "MaxSize": 127, "expect": []string{"ok", "UnexpectedEOF"}})
 	c.Assume("a zero MaxSize means the documented 4 MiB default; when both truncation and size>MaxSize apply, the size check comes first once the size prefix is complete")
+}
+
+// requiredFrames: UnmarshalFrom of a complete frame is proto.Unmarshal of its
+// body with the same options, whatever the body length (zero included).
+func requiredFrames(c *core.Ctx, ks []readerKind) {
+	msgs := []proto.Message{
+		&testpb.TestRequired{},
+		&testpb.TestRequired{RequiredField: proto.Int32(1)},
+		&testpb.TestRequiredForeign{},
+		&testpb.TestRequiredForeign{OptionalMessage: &testpb.TestRequired{}},
+		&testpb.TestRequiredForeign{OptionalMessage: &testpb.TestRequired{RequiredField: proto.Int32(0)}},
+	}
+	for _, a := range msgs {
+		for _, b := range msgs {
+			if a.ProtoReflect().Descriptor() != b.ProtoReflect().Descriptor() {
+				continue
+			}
+			var stream bytes.Buffer
+			var bodies [][]byte
+			for _, m := range []proto.Message{a, b} {
+				body, _ := proto.MarshalOptions{AllowPartial: true}.Marshal(m)
+				bodies = append(bodies, body)
+				if _, err := (protodelim.MarshalOptions{MarshalOptions: proto.MarshalOptions{AllowPartial: true}}).MarshalTo(&stream, m); err != nil {
+					c.Violation("MarshalTo{AllowPartial} fails", err.Error())
+					return
+				}
+			}
+			for _, k := range ks {
+				for _, partial := range []bool{false, true} {
+					for _, reuse := range []bool{false, true} {
+						c.Eval(1)
+						r, _ := k.mk(stream.Bytes())
+						dst := a.ProtoReflect().New().Interface()
+						for call, body := range bodies {
+							if !reuse {
+								dst = a.ProtoReflect().New().Interface()
+							}
+							sig := fmt.Sprintf("required-field frames bodies=%x,%x reader=%s AllowPartial=%v reusedDestination=%v call#%d", bodies[0], bodies[1], k.name, partial, reuse, call)
+							uo := proto.UnmarshalOptions{AllowPartial: partial}
+							ref := a.ProtoReflect().New().Interface()
+							refErr := uo.Unmarshal(body, ref)
+							var err error
+							if c.Guard(func() string { return "UnmarshalFrom panics " + sig }, func() {
+								err = protodelim.UnmarshalOptions{UnmarshalOptions: uo}.UnmarshalFrom(r, dst)
+							}) {
+								break
+							}
+							if (err == nil) != (refErr == nil) {
+								c.Violation(fmt.Sprintf("UnmarshalFrom err=%v but proto.Unmarshal of the frame body err=%v: %s", err, refErr, sig), nil)
+								break
+							}
+							if !proto.Equal(dst, ref) {
+								c.Violation("UnmarshalFrom content differs from proto.Unmarshal of the frame body: "+sig, nil)
+								break
+							}
+						}
+					}
+				}
+			}
+		}
+	}
 }
